@@ -55,8 +55,9 @@ class CDSInterval(AbstractFeatureInterval):
         self._location = self.initialize_location(cds_starts, cds_ends, strand, parent_or_seq_chunk_parent)
         self._genomic_starts = cds_starts
         self._genomic_ends = cds_ends
-        self.start = cds_starts[0]
-        self.end = cds_ends[-1]
+        # the span of the blocks, also when one block is nested in another
+        self.start = min(cds_starts)
+        self.end = max(cds_ends)
         self._strand = strand
         self._parent_or_seq_chunk_parent = parent_or_seq_chunk_parent
         self.sequence_guid = sequence_guid
